@@ -19,11 +19,11 @@ import numpy as np
 # --------------------------------------------------------------------------
 # the definition, in numpy
 # --------------------------------------------------------------------------
-SPEC_KINDS = ("default", "extended", "cfit", "cfit_ext", "cfit_cached", "simple")
+SPEC_KINDS = ("default", "extended", "cfit", "cfit_ext", "cfit_cached", "simple", "simple_pen")
 CFIT_KINDS = ("cfit", "cfit_ext", "cfit_cached")
 
 
-def def_group(kind, w, f_d, v, f_m, phi=None, eff_d=None, eff_m=None, b_d=None, b_m=None, variant=None):
+def def_group(kind, w, f_d, v, f_m, phi=None, eff_d=None, eff_m=None, b_d=None, b_m=None, fk_m=None, pen=None, variant=None):
     """DefGroup: one data set.
 
     w    weights of the data events followed by the background events (the latter = -w_bkg)
@@ -39,12 +39,17 @@ def def_group(kind, w, f_d, v, f_m, phi=None, eff_d=None, eff_m=None, b_d=None, 
     f_m = np.asarray(f_m, dtype=float)
     sw = w.sum()
     alpha = sw / (w * w).sum()  # Alpha(g) = SumW / SumW2
-    if kind in ("default", "simple", "extended"):
+    if kind in ("default", "simple", "extended", "simple_pen"):
         integral = (v * f_m).sum() / v.sum()  # IntAmp
         lnd = (w * np.log(f_d)).sum()
         if kind == "extended":
             return -alpha * (lnd - sw * integral)
-        return -alpha * (lnd - sw * np.log(integral))
+        val = -alpha * (lnd - sw * np.log(integral))
+        if kind == "simple_pen":  # Penalty(IntK, IntAmp): once per data set
+            for fk, (value, sigma) in zip(fk_m, pen):
+                ik = (v * np.asarray(fk, dtype=float)).sum() / v.sum()
+                val = val + 0.5 * ((ik / integral - value) / sigma) ** 2
+        return val
     eff_d = np.ones_like(f_d) if eff_d is None else np.asarray(eff_d, dtype=float)
     eff_m = np.ones_like(f_m) if eff_m is None else np.asarray(eff_m, dtype=float)
     b_d = np.ones_like(f_d) if b_d is None else np.asarray(b_d, dtype=float)
@@ -108,6 +113,8 @@ def core_groups_on_tables(core, tables):
         v = [float(frac(x)) for x in g["mv"]] if g["mckey"] else [1.0] * nm
         gm = tables["GM"][((g["gm"] + (k + 1) - 2) % 3)]
         d = dict(w=w, f_d=[fs * x for x in tables["FD"][k][: nd + nb]], v=v, f_m=[fs * x for x in gm[:nm]])
+        if core["kind"] == "simple_pen":
+            d.update(fk_m=[[fs * x for x in tables["GK"][k][:nm]]], pen=[(float(frac(tables["pen"][0])), float(frac(tables["pen"][1])))])
         if core["kind"] in CFIT_KINDS:
             d.update(phi=float(frac(g["phi"])), eff_d=tables["ED"][k][: nd + nb], eff_m=tables["EM"][k][:nm], b_d=tables["BD"][k][: nd + nb], b_m=tables["BM"][k][:nm])
         out.append(d)
@@ -169,7 +176,31 @@ IMPL_KINDS = {
     "cfit_cached": ("cfit_cached", {"model": "cfit", "bg_frac": 0.5, "cached_amp": True}),
     "cfit_ext": ("cfit_ext", {"model": "cfit", "bg_frac": 0.5, "extended": True}),
     "simple_cfit": ("cfit", {"model": "simple_cfit", "bg_frac": 0.5}),
+    # the other registered custom models of tf_pwa/model/custom.py
+    "simple_clip": ("simple", {"model": "simple_clip"}),
+    "constr_frac": ("simple_pen", {"model": "constr_frac", "constr_frac": {"R_BC": {"res": ["R_BC"], "value": 0.2, "sigma": 0.05}}}),
 }
+# registered custom models without a documented defining formula: held to batch independence,
+# fcn() == nll_grad()[0] and CombineFCN = sum of parts only; value = (spec kind whose scenarios supply the samples, data options)
+INVARIANT_ONLY = {
+    "cfit_constr_frac": ("cfit", {"model": "cfit_constr_frac", "bg_frac": 0.5, "constr_frac": {"R_BC": {"res": ["R_BC"], "value": 0.2, "sigma": 0.05}}}),
+    "simple_chi2": ("simple", {"model": "simple_chi2", "extended": True}),
+}
+
+
+def registered_custom_models():
+    """names under which tf_pwa registers the likelihood models of tf_pwa/model/custom.py (data: {model: name})"""
+    import tf_pwa.model.custom as custom  # noqa: F401  (registers)
+    from tf_pwa.model.model import get_nll_model
+
+    reg = None
+    for c in get_nll_model.__closure__ or ():
+        v = c.cell_contents
+        if hasattr(v, "keys") and "default" in v:
+            reg = v
+    if reg is None:
+        raise RuntimeError("cannot read the registry of likelihood models")
+    return sorted(k for k in reg.keys() if getattr(reg[k], "__module__", "") == custom.__name__), sorted(reg.keys())
 IMPLS_OF_SPEC = {}
 for _k, (_s, _) in IMPL_KINDS.items():
     IMPLS_OF_SPEC.setdefault(_s, []).append(_k)
